@@ -97,15 +97,15 @@ def l2_sweep_events(run, rng, quick):
                 continue
             basis_list = lt.make_basis_list(descs2)
             tree, nodes = lt.build_basis_tree(spec, basis_list)
-            terms = lt.random_terms(rng, descs2, 3, factor_scale="unit", structure=False)
+            terms = lt.random_terms(rng, descs2, 2, factor_scale="unit", structure=False)
             ops = lt.terms_to_ops(None, terms, explicit_qn=False)
             for method, kinds in ((EvolveMethod.tdvp_ps, ("ps1f", "ps1b")), (EvolveMethod.tdvp_ps2, ("ps2f", "ps2b"))):
                 try:
                     ttno = TTNO(tree, ops)
-                    ttns = TTNS.random(tree, 0, 3, 1.0)
+                    ttns = TTNS.random(tree, 0, 2, 1.0)
                     ttns.evolve_config = EvolveConfig(method)
                     # the sweep runs on a copy: number the nodes of the copy through a wrapper of the method
-                    tau = 0.02
+                    tau = 1e-3        # the traversal does not depend on the step; a tiny step keeps the local Krylov problems cheap
                     meth = te.EVOLVE_METHODS[method]
 
                     def numbered(t, o, c, dt, _m=meth):
